@@ -12,7 +12,7 @@ func H_C06_prune() {
 	n := sxParam("n", 4)
 	lenMode := sxParam("lenmode", lenAll)
 	t := genTree(n, 2, false)
-	decorate(t, lenMode, true)
+	decorate(t, lenMode, supAny)
 	indexed := sxChoose("indexed", 2) == 1
 	if indexed {
 		sxAssert(t.ReinitIndexes() == nil, "ReinitIndexes succeeds on a valid tree")
